@@ -234,9 +234,28 @@ def nested_list_transform_class(c):
     return walk(c["a"], "") or walk(c["b"], "")
 
 
+def container_key_field_class(c):
+    """class C10-d: keyed compare with a composite key and a transform, and some record carries a key field whose value is
+    a dict or a list (keyed by the JSON text of its untransformed leaves)"""
+    if c.get("mode") != "k" or not c.get("tr") or not c.get("ck"):
+        return False
+    fields = [c["ck"]] if isinstance(c["ck"], str) else list(c["ck"])
+
+    def walk(t):
+        if isinstance(t, dict):
+            return any(walk(v) for v in t.values())
+        if isinstance(t, list):
+            return any(isinstance(r, dict) and any(isinstance(r.get(f), (dict, list)) for f in fields) for r in t) or any(walk(v) for v in t)
+        return False
+
+    return walk(c["a"]) or walk(c["b"])
+
+
 def known_class(c, detail=None):
     if detail and ("only_with_transform" in detail or "status" in detail) and nested_list_transform_class(c):
         return "C10-b"
+    if detail and ("only_with_transform" in detail or "status" in detail) and container_key_field_class(c):
+        return "C10-d"
     return None
 
 
